@@ -36,9 +36,13 @@ pub enum Kind {
     /// one unordered pattern with ONE response and an exact count (`each_call(..).answers(..).n_times(slots)`):
     /// every response is the same, so only the COUNT can go wrong (C03: verification fails iff the count is unmet)
     ExactCount,
+    /// two unordered patterns of one method: the first accepts half of the argument domain and has a response
+    /// chain, the second accepts everything: calls the first REJECTS race with calls it accepts (a rejecting
+    /// pattern must not influence which position an accepted call gets - C01)
+    UnorderedRejecting,
 }
 
-pub const KINDS: [Kind; 8] = [Kind::UnorderedChain, Kind::Ordered, Kind::Mixed, Kind::SingleUse, Kind::SingleUseThen, Kind::AllErrors, Kind::OrderedRejecting, Kind::ExactCount];
+pub const KINDS: [Kind; 9] = [Kind::UnorderedChain, Kind::Ordered, Kind::Mixed, Kind::SingleUse, Kind::SingleUseThen, Kind::AllErrors, Kind::OrderedRejecting, Kind::ExactCount, Kind::UnorderedRejecting];
 
 #[derive(Clone, Debug, PartialEq, Eq, Hash, Serialize, Deserialize)]
 pub struct RaceCase {
@@ -124,6 +128,23 @@ pub fn clauses(case: &RaceCase) -> Vec<ClauseSpec> {
             }
             v
         }
+        Kind::UnorderedRejecting => vec![
+            ClauseSpec::Single {
+                method: 2,
+                entry: Entry::Each,
+                pat: PatternSpec {
+                    id: 20,
+                    mask: 0x0f,
+                    matcher: MatcherKind::FuncDebug,
+                    chain: vec![seg(Resp::Answers, Quant::Once), seg(Resp::AnswersArc, Quant::NTimes(2)), seg(Resp::Returns, Quant::None)],
+                },
+            },
+            ClauseSpec::Single {
+                method: 2,
+                entry: Entry::Each,
+                pat: pat(21, vec![seg(Resp::Answers, Quant::Once), seg(Resp::Returns, Quant::None)]),
+            },
+        ],
         Kind::ExactCount => vec![ClauseSpec::Single {
             method: 2,
             entry: Entry::Each,
@@ -143,6 +164,8 @@ fn call_of(case: &RaceCase, t: usize, k: usize) -> (u8, u8) {
     match case.kind {
         Kind::Ordered => (0, arg),
         Kind::OrderedRejecting => (0, ((t * 5 + k * 3) % ARGS as usize) as u8),
+        // thread 0 starts with an argument the first pattern rejects, thread 1 with one it accepts, ...
+        Kind::UnorderedRejecting => (2, ((t * 5 + 4 + k * 3) % ARGS as usize) as u8),
         Kind::Mixed => (if (t + k) % 2 == 0 { 0 } else { 2 }, arg),
         // alternate between an unmatched call and a call to an unmentioned method
         Kind::AllErrors => (if (t + k) % 2 == 0 { 2 } else { 1 }, arg),
@@ -377,6 +400,7 @@ pub fn check(case: &RaceCase) -> Result<CaseInfo, String> {
             Kind::AllErrors => "all-errors",
             Kind::OrderedRejecting => "ordered-with-rejected-calls",
             Kind::ExactCount => "exact-count",
+            Kind::UnorderedRejecting => "unordered-with-a-rejecting-first-pattern",
         })
         .class_if(case.shared, "shared-&Unimock")
         .class_if(case.creator, "creator-thread-takes-part"))
@@ -454,7 +478,7 @@ fn slot_variants(kind: Kind, threads: u8, calls: u8) -> Vec<u8> {
     }
 }
 
-pub const RULE: &str = "schedules of the real code at the granularity of every atomic operation and lock acquisition the runtime performs (yield hook): T threads x K calls through clones on (a) one unordered pattern with a 3-segment response chain, (b) an ordered sequence whose slots accept every call (as many slots as calls, and one fewer), (c) both mixed, (d)/(e) single-use values, (f) an ordered sequence whose slots reject part of the calls (oracle there: no ordered position is handed out twice, and verification fails after a rejection), (h) calls that are all rejected (no pattern accepts / method unmentioned): every one of the N errors must be named by the verification after join, none lost, (g) one pattern with a single response and an exact count n_times(N) / n_times(N+1) for N calls (only the count can go wrong: verification after join must be silent / name exactly that pattern). exhaustive = depth-first enumeration of ALL schedules for (T,K) in {(2,1),(2,2),(3,1),(2,3)} (+ (3,2),(4,1) in the thorough tier); sampled = proptest-generated choice sequences for (3,2)..(4,3); stress = 16 unsynchronised real threads. lent-answers = T threads x K calls answered through make_ref on ONE shared &Unimock (value-chain cells and the delegator cell are yield points too), optionally the first call of each thread through a provided method (race for the delegation helper): all schedules of (2,1),(2,2) (+ (3,1),(2,3) thorough), sampled (3,2)..(4,3); oracle there: every call reads its own value at the call and at thread end, addresses pairwise distinct, silent teardown. Oracle: multiset of returned tags / panics per method equals that of positions 1..N of the sequential model, and the verification verdict after join equals the sequential verdict. Non-trivial = >= 2 context switches at yield points; distinct = distinct schedule";
+pub const RULE: &str = "schedules of the real code at the granularity of every atomic operation and lock acquisition the runtime performs (yield hook): T threads x K calls through clones on (a) one unordered pattern with a 3-segment response chain, (b) an ordered sequence whose slots accept every call (as many slots as calls, and one fewer), (c) both mixed, (d)/(e) single-use values, (f) an ordered sequence whose slots reject part of the calls (oracle there: no ordered position is handed out twice, and verification fails after a rejection), (h) calls that are all rejected (no pattern accepts / method unmentioned): every one of the N errors must be named by the verification after join, none lost, (i) two unordered patterns of one method, the first with a response chain accepting half of the argument domain: calls it rejects race with calls it accepts, (g) one pattern with a single response and an exact count n_times(N) / n_times(N+1) for N calls (only the count can go wrong: verification after join must be silent / name exactly that pattern). exhaustive = depth-first enumeration of ALL schedules for (T,K) in {(2,1),(2,2),(3,1),(2,3)} (+ (3,2),(4,1) in the thorough tier); sampled = proptest-generated choice sequences for (3,2)..(4,3); stress = 16 unsynchronised real threads. lent-answers = T threads x K calls answered through make_ref on ONE shared &Unimock (value-chain cells and the delegator cell are yield points too), optionally the first call of each thread through a provided method (race for the delegation helper): all schedules of (2,1),(2,2) (+ (3,1),(2,3) thorough), sampled (3,2)..(4,3); oracle there: every call reads its own value at the call and at thread end, addresses pairwise distinct, silent teardown. Oracle: multiset of returned tags / panics per method equals that of positions 1..N of the sequential model, and the verification verdict after join equals the sequential verdict. Non-trivial = >= 2 context switches at yield points; distinct = distinct schedule";
 
 pub fn stress(ctx: &Ctx) -> SubReport {
     // real threads, hooks idle: 16 threads hammer an unordered chain and an ordered sequence
@@ -820,7 +844,7 @@ pub fn run(ctx: &Ctx) -> Verdict {
         "sequentially consistent interleavings only (no weak-memory effects)".into(),
     ];
     v.subs.push(super::replay_corpus(ctx));
-    v.subs.extend(run_kinds(ctx, &[(2, 1), (2, 2), (3, 1), (2, 3)], &[Kind::UnorderedChain, Kind::Ordered, Kind::Mixed, Kind::OrderedRejecting, Kind::ExactCount, Kind::AllErrors]));
+    v.subs.extend(run_kinds(ctx, &[(2, 1), (2, 2), (3, 1), (2, 3)], &[Kind::UnorderedChain, Kind::Ordered, Kind::Mixed, Kind::OrderedRejecting, Kind::ExactCount, Kind::AllErrors, Kind::UnorderedRejecting]));
     v.subs.push(stress(ctx));
     v.subs.push(lend_stress(ctx));
     v.subs.extend(lent_reports(ctx));
